@@ -66,6 +66,7 @@ def run(ctx, chk):
         # classify by facts, in order
         cause = None
         last_status = None
+        excluded_status = set()
         flags = {}
         for (t, truth, ins) in pa.facts:
             if t == ("icmp", "eq", SIZE, ("c", 0)) and truth:
@@ -85,11 +86,18 @@ def run(ctx, chk):
                 else:
                     last_status = "other"
                     cause = None
-            elif t[0] == "icmp" and t[1] == "eq" and isinstance(t[2], tuple) and t[2][0] == "ld" and t[2][2] == st_status and P.is_const(t[3]) and truth \
+            elif t[0] == "icmp" and t[1] == "eq" and isinstance(t[2], tuple) and t[2][0] == "ld" and t[2][2] == st_status and P.is_const(t[3]) \
                     and isinstance(t[2][1], tuple) and t[2][1][0] == "alloca":
                 v = t[3][1]
-                last_status = v
-                cause = "nedata" if v == DS["CBOR_DECODER_NEDATA"] else ("error" if v == DS["CBOR_DECODER_ERROR"] else None)
+                if truth:
+                    last_status = v
+                    excluded_status = set()
+                    cause = "nedata" if v == DS["CBOR_DECODER_NEDATA"] else ("error" if v == DS["CBOR_DECODER_ERROR"] else None)
+                else:
+                    excluded_status.add(v)
+                    if excluded_status >= set(DS.values()):
+                        last_status = "other"   # a value outside the enumeration: unreachable given C08.status
+                        cause = None
             elif t[0] == "ld" and ctx_cell is not None and t[1] == ctx_cell:
                 if t[2] == cf_off:
                     flags["cf"] = truth
